@@ -177,3 +177,36 @@ def comprehension(ex, node, st, as_set=False):
         if as_set:
             out = Val(TSet(out.ty.elem), [out.terms[0]])
         yield st1, out
+
+
+# ------------------------------------------------------------------ alphabets (C03: URL-safety of encode_token)
+ALPH = z3.Function("alph", S, z3.ArraySort(S, z3.BoolSort()))          # the set of characters (one-character strings) of a string
+REPL = z3.Function("str_replace_all", S, S, S, S)
+
+
+def charset_of(text):
+    arr = z3.K(S, z3.BoolVal(False))
+    for ch in sorted(set(text)):
+        arr = z3.Store(arr, z3.StringVal(ch), True)
+    return arr
+
+
+def alph_of(t):
+    """alph(t); exact for a string literal"""
+    ts = z3.simplify(t)
+    if z3.is_string_value(ts):
+        return charset_of(ts.as_string())
+    return ALPH(t)
+
+
+def str_replace_all(ex, st, s, a, b):
+    """s.replace(a, b) (all occurrences).  Assumed contract, over alphabets only (cross-checked against CPython):
+         alph(r) is a subset of  (alph(s) minus {a} if a is one character that does not occur in b, else alph(s))  union  alph(b)"""
+    r = REPL(s, a, b)
+    a_s, b_s = z3.simplify(a), z3.simplify(b)
+    src = alph_of(s)
+    if z3.is_string_value(a_s) and z3.is_string_value(b_s) and len(a_s.as_string()) == 1 and a_s.as_string() not in b_s.as_string():
+        src = z3.Store(src, a_s, False)
+    st.axiom(z3.IsSubset(ALPH(r), z3.SetUnion(src, alph_of(b))))
+    ex.note_assumption("str.replace(a, b): alph(result) is contained in (alph(s) without a, when a is a single character not occurring in b) united with alph(b)")
+    return r
